@@ -192,6 +192,9 @@ func Load(sc *schema.Schema, db *boltz.DbImpl, w *World, r *core.Rand) error {
 	return db.Update(nil, func(ctx boltz.MutateContext) error { return LoadCtx(ctx, sc, w, r) })
 }
 
+// HashKid tells whether a thing is created through the child store when the schema has one.
+func HashKid(id string) bool { return core.HashString(id)%2 == 0 }
+
 // LoadCtx writes the world inside the caller's transaction.
 func LoadCtx(ctx boltz.MutateContext, sc *schema.Schema, w *World, r *core.Rand) error {
 	{
@@ -215,7 +218,13 @@ func LoadCtx(ctx boltz.MutateContext, sc *schema.Schema, w *World, r *core.Rand)
 					}
 					e.V[f.Name] = schema.CloneVal(v)
 				}
-				if err := st.Store.Create(ctx, e); err != nil {
+				target := st
+				if kid := sc.St(Things + "/kid"); kid != nil && store == Things && HashKid(id) {
+					// the schema has a child store layered on things: every other thing is created through it
+					target = kid
+					e.V["extra"] = "x-" + id
+				}
+				if err := target.Store.Create(ctx, e); err != nil {
 					return err
 				}
 			}
